@@ -39,9 +39,10 @@ type refEntry struct {
 // sequence has not been cleared with Remove(seq, 0, MaxInt32) since: the cache
 // interface leaves the content unspecified in that state.
 type refSeq struct {
-	ents      []refEntry
-	undefined bool
-	ops       []string // notable operations since the last complete clear (signatures, messages)
+	ents        []refEntry
+	undefined   bool
+	failedShift bool     // the last Remove was a shift (middle removal) that failed
+	ops         []string // notable operations since the last complete clear (signatures, messages)
 }
 
 func (r *refSeq) op(name string) {
@@ -102,6 +103,9 @@ func (c *recCache) StartForward(ctx ml.Context, batch input.Batch, reserve bool)
 	err := c.inner.StartForward(ctx, batch, reserve)
 	c.f.inForward = false
 	c.lastFwdErr = err
+	if verifDebug && !reserve {
+		debugf("cache.StartForward seqs=%v pos=%v toks=%v = %v (defrag %d)", batch.Sequences, batch.Positions, batch.Inputs.Floats(), err, c.f.defragRuns-before)
+	}
 	if err != nil {
 		if errors.Is(err, kvcache.ErrKvCacheFull) {
 			verifsim.Probe("cache_full_error")
@@ -130,6 +134,7 @@ func (c *recCache) StartForward(ctx ml.Context, batch input.Batch, reserve bool)
 }
 
 func (c *recCache) CopyPrefix(srcSeq, dstSeq int, n int32) {
+	debugf("cache.CopyPrefix(%d -> %d, %d)", srcSeq, dstSeq, n)
 	verifsim.Probe("fork")
 	c.inner.CopyPrefix(srcSeq, dstSeq, n)
 	src, dst := c.seq(srcSeq), c.seq(dstSeq)
@@ -160,14 +165,18 @@ func (c *recCache) Remove(seq int, beginIndex, endIndex int32) error {
 		c.onLoad(seq)
 	}
 	if !full {
+		if endIndex != math.MaxInt32 && c.rejectMiddle {
+			r.failedShift = true
+		}
 		if (endIndex != math.MaxInt32 && c.rejectMiddle) || (endIndex == math.MaxInt32 && c.rejectTrim && beginIndex < int32(len(r.ents))) {
 			verifsim.Fault("partial_erase_unsupported")
 			r.undefined = true
 			return kvcache.ErrNotSupported
 		}
 	}
-	if beginIndex == 0 && endIndex == -1 {
-		// what ShiftCacheSlot calls after a failed shift
+	if r.failedShift {
+		// the call that follows a failed shift is ShiftCacheSlot's "reset the cache"
+		r.failedShift = false
 		verifsim.Probe("shift_fallback")
 		r.op("fallback")
 	}
@@ -176,6 +185,7 @@ func (c *recCache) Remove(seq int, beginIndex, endIndex int32) error {
 	err := c.inner.Remove(seq, beginIndex, endIndex)
 	c.f.inRemove = false
 	c.f.failShiftNow = false
+	debugf("cache.Remove(%d, %d, %d) = %v", seq, beginIndex, endIndex, err)
 	if err != nil {
 		verifsim.Probe("remove_error")
 		switch {
@@ -187,6 +197,7 @@ func (c *recCache) Remove(seq int, beginIndex, endIndex int32) error {
 			r.op("shiftfail")
 		}
 		r.undefined = true
+		r.failedShift = endIndex != math.MaxInt32
 		return err
 	}
 	if full {
@@ -631,6 +642,7 @@ func (m *scriptModel) Forward(ctx ml.Context, batch input.Batch) (ml.Tensor, err
 			}
 		}
 		nt := m.v.next(h, int32(toks[o]))
+		debugf("  %s: slot %d row %d -> next token %d", srv.name, batch.Sequences[o], o, nt)
 		srv.generated(batch.Sequences[o], nt)
 		row := make([]float32, nv)
 		for x := range row {
